@@ -343,10 +343,16 @@ end
 
 /-- two indexed kinds and one plain kind; objects 7, 8 of kind 1 and 9 of kind 2; staggered LISTED -/
 private def goodTrace : List (Label Nat Nat) :=
-  [ .spawnBegin [(1, true), (2, true), (3, false)], .spawn 1, .arrive 1 7 true true, .spawn 2, .listed 1,
-    .spawn 3, .spawnEnd, .index 1 7, .drop 1 7, .arrive 3 5 true false, .arrive 2 9 true true,
-    .index 3 5, .drop 3 5, .index 2 9, .listed 2, .drop 2 9, .pass 1 7, .handle 1 7, .pass 3 5,
-    .arrive 1 8 false false, .index 1 8, .skip 1 8, .handle 1 8 ]
+  [ .spawnBegin [(1, true), (2, true), (3, false)], .spawn 1, .check 1 false, .arrive 1 7 true true,
+    .spawn 2, .listed 1, .spawn 3, .spawnEnd, .index 1 7, .drop 1 7, .check 3 false, .arrive 3 5 true false,
+    .check 2 false, .arrive 2 9 true true, .index 3 5, .drop 3 5, .index 2 9, .listed 2,
+    .check 2 false,                                   -- a late object of kind 2: sees the set off …
+    .drop 2 9, .pass 1 7, .handle 1 7, .pass 3 5,      -- … the gate opens meanwhile, handlers start …
+    .arrive 2 6 true true,                            -- … and only now is its toggle added (closes again)
+    .check 1 false, .arrive 1 4 true true, .index 1 4, .drop 1 4,
+    .index 2 6, .drop 2 6, .pass 1 4,
+    .check 1 true, .arrive 1 8 false false, .index 1 8, .skip 1 8, .handle 1 8,
+    .finish 1 7, .again 1 7, .index 1 7, .drop 1 7, .pass 1 7, .handle 1 7, .finish 1 7 ]
 
 example : (run .none GState.init goodTrace).map (fun s => (s.handled, readyB s)) = some (true, true) := by
   decide
@@ -354,13 +360,13 @@ example : (run .none GState.init goodTrace).map (fun s => (s.handled, readyB s))
 /-- the gate refuses to let a waiter pass while a kind is still listing -/
 example : (run .none GState.init
     [ .spawnBegin [(1, true), (2, true)], .spawn 1, .spawn 2, .spawnEnd, .listed 1,
-      .arrive 2 9 true true, .index 2 9, .drop 2 9, .pass 2 9 ] : Option (GState Nat Nat)).isNone = true := by
+      .check 2 false, .arrive 2 9 true true, .index 2 9, .drop 2 9, .pass 2 9 ] : Option (GState Nat Nat)).isNone = true := by
   decide
 
 /-- Without the orchestration blocker a worker reaches the handlers while kind 2 has no toggle yet. -/
 theorem noBlocker_witness : ∃ (ls : List (Label Nat Nat)) (s : GState Nat Nat),
     run .noBlocker GState.init ls = some s ∧ s.handled = true ∧ ¬ Ready s := by
-  refine ⟨[ .spawnBegin [(1, true), (2, true)], .spawn 1, .arrive 1 7 true true, .listed 1,
+  refine ⟨[ .spawnBegin [(1, true), (2, true)], .spawn 1, .check 1 false, .arrive 1 7 true true, .listed 1,
             .index 1 7, .drop 1 7, .pass 1 7, .handle 1 7 ], _, rfl, by decide, ?_⟩
   intro h
   have := h.2.1
@@ -370,7 +376,7 @@ theorem noBlocker_witness : ∃ (ls : List (Label Nat Nat)) (s : GState Nat Nat)
 /-- If the per-kind toggle is not held until LISTED, handlers start before the kind is listed. -/
 theorem noKindToggle_witness : ∃ (ls : List (Label Nat Nat)) (s : GState Nat Nat),
     run .noKindToggle GState.init ls = some s ∧ s.handled = true ∧ ¬ Ready s := by
-  refine ⟨[ .spawnBegin [(1, true), (2, true)], .spawn 1, .spawn 2, .spawnEnd,
+  refine ⟨[ .spawnBegin [(1, true), (2, true)], .spawn 1, .spawn 2, .spawnEnd, .check 1 true,
             .arrive 1 7 false false, .index 1 7, .skip 1 7, .handle 1 7 ], _, rfl, by decide, ?_⟩
   intro h
   have := h.2.2.2.1 2 (by decide)
@@ -381,7 +387,8 @@ theorem noKindToggle_witness : ∃ (ls : List (Label Nat Nat)) (s : GState Nat N
     while a listed object is not indexed yet. -/
 theorem dropBeforeIndex_witness : ∃ (ls : List (Label Nat Nat)) (s : GState Nat Nat),
     run .dropBeforeIndex GState.init ls = some s ∧ s.handled = true ∧ ¬ Ready s := by
-  refine ⟨[ .spawnBegin [(1, true)], .spawn 1, .spawnEnd, .arrive 1 7 true true, .arrive 1 8 true true,
+  refine ⟨[ .spawnBegin [(1, true)], .spawn 1, .spawnEnd, .check 1 false, .arrive 1 7 true true,
+            .check 1 false, .arrive 1 8 true true,
             .listed 1, .drop 1 7, .index 1 8, .drop 1 8, .pass 1 8, .handle 1 8 ], _, rfl, by decide, ?_⟩
   intro h
   have := h.2.2.2.2 (1, 7) (by decide)
